@@ -216,9 +216,11 @@ Ltac step_inv H :=
           end; try discriminate H);
   injection H as <-.
 
-Ltac ssimpl := unfold do_unsub, set_live, set_loop, set_subs, set_subq, set_unsubq, set_dist, set_wk, set_ch, set_rcv,
+Ltac sunfold := unfold do_unsub, set_live, set_loop, set_subs, set_subq, set_unsubq, set_dist, set_wk, set_ch, set_rcv,
   set_call, set_cctx, set_sigready, set_pubd, set_issued, set_created, set_unsubcalled, set_owed, set_acc,
-  set_taken, set_done, set_evicted, set_dropped in *; simpl in *.
+  set_taken, set_done, set_evicted, set_dropped.
+(* the successor state only occurs in the goal (step_inv substitutes it there) *)
+Ltac ssimpl := sunfold; simpl in *.
 
 Ltac boolp := repeat match goal with
   | H : _ && _ = true |- _ => apply andb_true_iff in H as [? ?]
